@@ -114,6 +114,20 @@ func (e *Env) eval(x Expr) Val {
 				o.vars[k] = v
 			}
 		}
+		// local variables keep their current values inside old() (only the heap and the
+		// parameters are those of the entry state)
+		if o.lookup == nil {
+			cur := e
+			o.lookup = func(name string) (Val, bool) {
+				if v, ok := cur.vars[name]; ok {
+					return v, true
+				}
+				if cur.lookup != nil {
+					return cur.lookup(name)
+				}
+				return nil, false
+			}
+		}
 		return o.eval(x.X)
 	case *Unary:
 		switch x.Op {
@@ -678,7 +692,7 @@ func (e *Env) call(x *CallE) Val {
 	if len(ps.Params) != len(x.Args) {
 		cfail("%s expects %d arguments", x.Fun, len(ps.Params))
 	}
-	if ps.Rec {
+	if ps.Rec || ps.AsFun {
 		return e.callRec(ps, x)
 	}
 	if e.depth > 24 {
